@@ -92,7 +92,10 @@ def classify(items, exp, got):
     for e in exp:
         if e["text"] != got["text"]:
             sig = "markup:text"
-            if _has_item(items, lambda it: it["k"] == "nomarkup" and it.get("close") == "name"):
+            # the close tag of a nomarkup section shows up in the text: it was not recognised
+            word = [ord(c) for c in "nomarkup"]
+            if any(got["text"][i:i + len(word)] == word for i in range(len(got["text"]))) and \
+                    _has_item(items, lambda it: it["k"] == "nomarkup" and it.get("close") == "name"):
                 sig = "markup:nomarkup-closed-by-name"
         else:
             ek = sorted(_attr_key(a) for a in e["attrs"])
